@@ -58,12 +58,27 @@ def check_pair(before, after, passes, args):
     try:
         a1 = [np.array(a) for a in args]
         a2 = [np.array(a) for a in args]
-        r1, log1 = irser.direct_eval(before, a1)
-        r2, log2 = irser.direct_eval(after, a2)
-        ok = _same(r1, r2) and all(np.array_equal(x, y) for x, y in zip(a1, a2))
+        def ev(g, a):
+            # a run-time check of the graph that fails (assert node) is an outcome of the graph, not of the oracle
+            try:
+                return ("ok", irser.direct_eval(g, a)[0])
+            except AssertionError:
+                return ("assertion_fails", None)
+            except irser.Unsupported:
+                raise
+            except Exception as e:  # noqa: BLE001 - an ill-behaved user function of an adapter graph: the same failure on both sides is agreement
+                return ("raises " + type(e).__name__, None)
+        (k1, r1), (k2, r2) = ev(before, a1), ev(after, a2)
+        if k1 != k2:
+            ok = False
+            item["detail"] = {"before": k1 if k1 != "ok" else _tolist(r1), "after": k2 if k2 != "ok" else _tolist(r2)}
+        elif k1 != "ok":
+            ok = True
+        else:
+            ok = _same(r1, r2) and all(np.array_equal(x, y) for x, y in zip(a1, a2))
+            if not ok:
+                item["detail"] = {"before": _tolist(r1), "after": _tolist(r2), "args_before": _tolist(a1), "args_after": _tolist(a2)}
         item["oracle"] = "ok" if ok else "differs"
-        if not ok:
-            item["detail"] = {"before": _tolist(r1), "after": _tolist(r2), "args_before": _tolist(a1), "args_after": _tolist(a2)}
     except irser.Unsupported as e:
         item["oracle"] = "unsupported: " + str(e)
     except BaseException as e:  # noqa: BLE001
@@ -104,6 +119,64 @@ def _work_real(c):
             it = check_pair(before, after, n, c.arrays)
             it["what"] = {"call": c.record(), "backend": b}
             out.append(it)
+    return out
+
+
+ADAPT_FUNCS = {
+    "good": lambda a, b: a + 2 * b,
+    "contracts": lambda a, b: np.dot(a.ravel(), b.ravel()),            # wrong output shape
+    "rowsum": lambda a, b: (a * b).sum(axis=-1),                       # wrong output shape (rank)
+    "aslist": lambda a, b: (a + b).tolist(),                           # wrong output type
+    "good_reduce": lambda x, axis: np.sum(x, axis=axis),
+    "keeps_axis": lambda x, axis: np.sum(x, axis=axis, keepdims=True),  # wrong output shape
+    "listed_reduce": lambda x, axis: np.sum(x, axis=axis).tolist(),   # wrong output type
+}
+
+
+def adapter_cases(rng, n):
+    """user functions under einx.numpy.adapt_numpylike_elementwise / _reduce: the traced graph carries run-time checks (assert nodes)
+    on what the function returns; operands that need no alignment make the graph a bare call plus its checks"""
+    out = []
+    for _ in range(n):
+        a, b = rng.choice([2, 3]), rng.choice([2, 4])
+        if rng.random() < 0.6:
+            f = rng.choice(["good", "contracts", "rowsum", "aslist"])
+            desc, shapes = rng.choice([("a, a", [(a,), (a,)]), ("a b, a b", [(a, b), (a, b)]), ("a b, b", [(a, b), (b,)]), ("a b, b a -> a b", [(a, b), (b, a)]),
+                                       ("a, a -> a", [(a,), (a,)])])
+            out.append(("elementwise", f, desc, shapes))
+        else:
+            f = rng.choice(["good_reduce", "keeps_axis", "listed_reduce"])
+            desc, shapes = rng.choice([("a [b]", [(a, b)]), ("[a] b", [(a, b)]), ("a [b] -> a", [(a, b)]), ("[a]", [(a,)]), ("b [a] -> b", [(b, a)])])
+            out.append(("reduce", f, desc, shapes))
+    return out
+
+
+def _work_adapt(item):
+    import einx
+    import einx._src.tracer as tracer
+    kind, f, desc, shapes = item
+    fn = (einx.numpy.adapt_numpylike_elementwise if kind == "elementwise" else einx.numpy.adapt_numpylike_reduce)(ADAPT_FUNCS[f])
+    arrays = [np.arange(int(np.prod(sh)), dtype=np.float64).reshape(sh) + k for k, sh in enumerate(shapes)]
+    pairs = []
+    orig = tracer.optimize
+
+    def optimize(x, optimizations):
+        after, n = count_passes(x, optimizations)
+        pairs.append((x, after, n))
+        return after
+    tracer.optimize = optimize
+    try:
+        try:
+            fn(desc, *arrays)
+        except BaseException:  # noqa: BLE001 - ill-behaved functions are expected to be rejected at run time
+            pass
+    finally:
+        tracer.optimize = orig
+    out = []
+    for before, after, n in pairs:
+        it = check_pair(before, after, n, arrays)
+        it["what"] = {"adapter": kind, "function": f, "desc": desc, "shapes": [list(sh) for sh in shapes]}
+        out.append(it)
     return out
 
 
@@ -204,9 +277,10 @@ def run(ctx):
     real = common.pmap(_work_real, cases)
     syn_items = synthetic(ctx.rng, 600 if quick else 10000) + perm_pairs(4 if quick else 5)
     syn = common.pmap(_work_syn, syn_items)
-    items = [it for its in real + syn for it in its]
+    adp = common.pmap(_work_adapt, adapter_cases(ctx.rng, 60 if quick else 1500))
+    items = [it for its in real + syn + adp for it in its]
     lines, owners = [], []
-    stats = {"pairs": len(items), "real": sum(len(x) for x in real), "synthetic": sum(len(x) for x in syn), "checked_by_model": 0,
+    stats = {"pairs": len(items), "real": sum(len(x) for x in real), "synthetic": sum(len(x) for x in syn), "adapter_graphs": sum(len(x) for x in adp), "checked_by_model": 0,
              "unsupported_terms": 0, "oracle_runs": 0, "changed_by_optimizer": 0, "max_passes": 0}
     for it in items:
         stats["max_passes"] = max(stats["max_passes"], it["passes"])
@@ -257,6 +331,10 @@ def run(ctx):
         if e and e.get("evb", [""])[0] == "ok" and e.get("eva", [""])[0] == "ok":
             if inplace_events(e["evb"][1]) != inplace_events(e["eva"][1]) and len(inplace_events(e["evb"][1])) != len(inplace_events(e["eva"][1])):
                 ctx.report({"kind": "inplace_effects_changed"}, {"what": it["what"], "before": it.get("gb"), "after": it.get("ga")})
+            nb, na = (sum(1 for x in e[k][1] if x[0] == "assert") for k in ("evb", "eva"))
+            if nb != na:
+                ctx.report({"kind": "runtime_checks_changed"}, {"what": it["what"], "asserts_before": nb, "asserts_after": na, "before": it.get("gb"), "after": it.get("ga")})
+            stats["assert_events"] = stats.get("assert_events", 0) + nb
     for it in items[:2] + items[-2:]:
         ctx.sample({"what": it["what"], "passes": it["passes"], "oracle": it.get("oracle")})
     ctx.coverage.update({
